@@ -36,27 +36,72 @@ inductive Balanced : List Op → Prop
       notDoc o = true → closes o o' = true → Balanced body → Balanced rest →
       Balanced (Op.push o locals :: (body ++ Op.pop o' :: rest))
 
-/-- the stack `c` with the definitions `g` added (newest first) to its global frame -/
-def extG (g : List (Nat × Val)) (c : Ctx) : Ctx :=
-  modifyGlobal (fun f => { f with macros := g ++ f.macros }) c
+/-- what a balanced history may leave behind on the stack it started from -/
+structure Delta where
+  /-- macro bindings added (newest first) to the global frame -/
+  g : List (Nat × Val) := []
+  /-- token aliases (`\\let\\x=<char>`) added to the global frame -/
+  gl : List (Nat × Nat) := []
+  /-- names whose macro bindings are gone from every frame above the global one (`\\gdef`, `\\global\\let`) -/
+  ns : List Nat := []
+  /-- names whose token aliases are gone from every frame above the global one (`\\global\\let`) -/
+  ls : List Nat := []
+  deriving Repr
 
-/-- `(n, v)` may be written to the global frame by `op` -/
+/-- `a` after `b` -/
+def Delta.app (a b : Delta) : Delta := ⟨a.g ++ b.g, a.gl ++ b.gl, a.ns ++ b.ns, a.ls ++ b.ls⟩
+
+/-- effect on a frame above the global one -/
+def Delta.localF (d : Delta) (f : Frame) : Frame :=
+  { f with macros := f.macros.filter (fun p => !d.ns.contains p.1), lets := f.lets.filter (fun p => !d.ls.contains p.1) }
+
+/-- effect on the global frame -/
+def Delta.globalF (d : Delta) (f : Frame) : Frame :=
+  { f with macros := d.g ++ f.macros, lets := d.gl ++ f.lets }
+
+/-- apply `L` to every frame above the global one and `G` to the global frame -/
+def mapFrames (L G : Frame → Frame) : Ctx → Ctx
+  | [] => []
+  | [g] => [G g]
+  | f :: fs => L f :: mapFrames L G fs
+
+/-- what a balanced history leaves of the stack `c`: the same frames, with the global frame extended by `d.g` / `d.gl`
+    and the local bindings / aliases of the names in `d.ns` / `d.ls` gone from every enclosing level -/
+def shape (d : Delta) (c : Ctx) : Ctx := mapFrames d.localF d.globalF c
+
+/-- the stack `c` with the definitions `g` added (newest first) to its global frame -/
+def extG (g : List (Nat × Val)) (c : Ctx) : Ctx := shape { g := g } c
+
+/-- `op` may write a macro binding for `n` into the global frame -/
 def globalSource (n : Nat) : Op → Bool
   | .addGlobal m _ => m == n
   | .lookup m => m == n
   | .letCs _ s => s == n
   | .gdef m _ => m == n
+  | .gletCs d s => d == n || s == n
   | _ => false
 
-/-- `op` is a `\\gdef` of `n` -/
+/-- `op` is a global assignment to `n` (`\\gdef\\n`, `\\global\\let\\n…`): it removes the local macro bindings of `n` -/
 def isGdef (n : Nat) : Op → Bool
   | .gdef m _ => m == n
+  | .gletCs d _ => d == n
+  | .gletTok d _ => d == n
   | _ => false
 
-/-- what a balanced history leaves of the stack `c`: the local bindings of the names in `ns`
-    (those it defined globally with `\\gdef`) are gone from every enclosing level, and the
-    definitions `g` were added to the global frame -/
-def shape (g : List (Nat × Val)) (ns : List Nat) (c : Ctx) : Ctx := extG g (dropLocalsL ns c)
+/-- `op` is a `\\global\\let` of `n`: it removes the local token aliases of `n` (and may add a global one) -/
+def isGlet (n : Nat) : Op → Bool
+  | .gletCs d _ => d == n
+  | .gletTok d _ => d == n
+  | _ => false
+
+/-- every component of `d` is accounted for by an operation of `ops` -/
+def Delta.justified (d : Delta) (ops : List Op) : Prop :=
+  (∀ x ∈ d.g, ∃ op ∈ ops, globalSource x.1 op = true) ∧ (∀ n ∈ d.ns, ∃ op ∈ ops, isGdef n op = true) ∧
+  (∀ x ∈ d.gl, ∃ op ∈ ops, isGlet x.1 op = true) ∧ (∀ n ∈ d.ls, ∃ op ∈ ops, isGlet n op = true)
+
+/-- componentwise inclusion -/
+def Delta.sub (a b : Delta) : Prop :=
+  (∀ x ∈ a.g, x ∈ b.g) ∧ (∀ x ∈ a.ns, x ∈ b.ns) ∧ (∀ x ∈ a.gl, x ∈ b.gl) ∧ (∀ x ∈ a.ls, x ∈ b.ls)
 
 /-- the global frame's own binding of a name -/
 def findGlobal (n : Nat) : Ctx → Option Val
